@@ -306,6 +306,7 @@ static rt::Verdict eval_case(const Case &c, const rt::Args &) {
     return r.run();
 }
 
+#ifndef FUZZ_TARGET
 static rc::Gen<Op> gen_op() {
     using namespace rc;
     auto mk = [](int code, std::vector<long> a = {}) { Op o; o.code = code; o.a = a; return o; };
@@ -376,3 +377,26 @@ int main(int argc, char **argv) {
     E.exhaustive = exhaustive;
     return rcm::run(argc, argv, E);
 }
+#endif // !FUZZ_TARGET
+
+#ifdef FUZZ_TARGET
+#include <fuzzer/FuzzedDataProvider.h>
+extern "C" int LLVMFuzzerTestOneInput(const uint8_t *data, size_t size) {
+    FuzzedDataProvider fdp(data, size);
+    Case c; c.cmp = fdp.ConsumeBool(); c.dtor = fdp.ConsumeBool();
+    while (fdp.remaining_bytes() > 0 && c.ops.size() < 100) {
+        Op o; o.code = fdp.ConsumeIntegralInRange<int>(0, NCODES - 1);
+        switch (o.code) {
+        case INSERT: case REMOVE: case FIND: o.a = {fdp.ConsumeIntegralInRange<long>(0, NKEYS - 1)}; break;
+        case TRAVERSE: o.a = {fdp.ConsumeIntegralInRange<long>(0, 3), fdp.ConsumeIntegralInRange<long>(0, 2), fdp.ConsumeIntegralInRange<long>(0, 12)}; break;
+        case ITR: { int n = fdp.ConsumeIntegralInRange<int>(0, 16); for (int i = 0; i < n; i++) o.a.push_back(fdp.ConsumeIntegralInRange<long>(0, 1)); break; }
+        default: break;
+        }
+        c.ops.push_back(o);
+    }
+    rt::Args a;
+    rt::Verdict v = eval_case(c, a);
+    fuzz_account(to_text(c), v);
+    return 0;
+}
+#endif
